@@ -48,7 +48,9 @@ def parts(tier):
             dict(part="sim", cfg="asan255", shards=1 if q else 2),
             dict(part="law", cfg="asan381", shards=1 if q else 2),
             dict(part="mul", cfg="asan381", shards=1 if q else 4),
-            dict(part="sim", cfg="asan381", shards=1 if q else 3)]
+            dict(part="sim", cfg="asan381", shards=1 if q else 3),
+            # EP_ADD = BASIC dispatch: every ep_mul_* / ep_mul_sim_* over affine addition (reduced counts)
+            dict(part="mulx", cfg="asan256x", shards=2 if q else 4)]
 
 
 # Fatal (sanitizer abort) defects listed as *known* are produced by exactly one directed case per
@@ -264,6 +266,7 @@ class W(object):
         self.sysof = {"basic": self.BASIC, "projc": self.PROJC, "jacob": self.JACOB}
         self.EQ, self.NE = K["RLC_EQ"], K["RLC_NE"]
         self.confined = load_confined()
+        self.light = 8 if ctx.cfg.endswith("x") else 1
         self.not_built = set()
         self.skipped_confined = 0
         self.info = {}
@@ -280,6 +283,11 @@ class W(object):
         ctx.note("confined_known_fatal", sorted(self.confined))
 
     # ------------------------------------------------------------------ helpers
+    def n(self, q, t=None):
+        """case count; the affine-dispatch build (every addition inverts) gets a fraction of it"""
+        v = self.ctx.n(q, t)
+        return max(1, v // self.light) if self.light > 1 else v
+
     def begin(self, key, desc=None, **kw):
         """ctx.begin plus a per-case generator: the main stream advances by exactly one draw whether or not the case
         runs, everything random inside a case comes from self.crng - a replay (which runs only the cases of one
@@ -1162,17 +1170,19 @@ class W(object):
                     continue
                 if bi in (1, 3, 4) and rng.random() < 0.7:
                     continue
+                if self.light > 1 and rng.random() < 0.8:
+                    continue
                 self.mul_group(cv, d, P, k, fns, tabs)
-            N = ctx.n(60, 1500) if bi != 4 else ctx.n(6, 100)
+            N = self.n(60, 1500) if bi != 4 else self.n(6, 100)
             for it in range(N):
                 self.mul_group(cv, d, P, self.random_scalar(cv), fns, tabs)
             self.free_tables(tabs)
         # fresh random points without tables (variable-base routines only), incl. in-place and native coordinates
-        for it in range(ctx.n(80, 2500)):
+        for it in range(self.n(80, 2500)):
             d, P = cv.rand_sub()
             self.mul_group(cv, d, P, self.random_scalar(cv), fns, [])
         # digits
-        for it in range(ctx.n(40, 1500)):
+        for it in range(self.n(40, 1500)):
             d, P = cv.rand_sub() if rng.random() < 0.9 else (0, None)
             k = rng.choice([0, 1, 2, 3, R.B - 1, R.B >> 1, (R.B >> 1) - 1, rng.randrange(R.B), rng.randrange(R.B),
                             rng.randrange(1 << 16)])
@@ -1203,7 +1213,7 @@ class W(object):
             else:
                 ctx.note("ep_mul_cof_skipped", cv.name)
                 return
-        for it in range(ctx.n(6, 100)):
+        for it in range(self.n(6, 100)):
             P = cv.rand_curve_point() if rng.random() < 0.8 else rng.choice([None, cv.G])
             alias = it % 2
             pc = rng.choice([self.BASIC, self.native])
@@ -1260,7 +1270,11 @@ class W(object):
                 key = "%s|%s|%s|%s" % (fn, cv.kind, grel, pc)
             else:
                 key = "%s|%s|%s|%s" % (fn, cv.kind, rel, pc)
-            desc = {"curve": cv.name, "dP": hx(dP), "k": hx(k), "dQ": hx(dQ), "m": hx(m)}
+            # result object: separate, the first point (not for sim_gen) or the second point
+            al = rng.randrange(6)
+            acl = "r=P" if (al == 0 and not gen) else ("r=Q" if al == 1 else "sep")
+            key += "|" + acl
+            desc = {"curve": cv.name, "dP": hx(dP), "k": hx(k), "dQ": hx(dQ), "m": hx(m), "alias": acl}
             if not self.begin(key, desc, nontrivial=(P is not None and Q is not None and k % n != 0 and m % n != 0)):
                 continue
             crng = self.crng
@@ -1268,8 +1282,7 @@ class W(object):
                 a, b, c = self.a, self.b, self.c
                 desc["Prep"] = self.put(cv, a, P, crng.choice([self.BASIC, self.native]))
                 desc["Qrep"] = self.put(cv, b, Q, crng.choice([self.BASIC, self.native]))
-                al = crng.randrange(6)
-                out = a if (al == 0 and not gen) else (b if al == 1 else c)
+                out = a if acl == "r=P" else (b if acl == "r=Q" else c)
                 if out == c:
                     self.scrub(c)
                 sa, sb = self.snap(a), self.snap(b)
@@ -1328,8 +1341,24 @@ class W(object):
         dQ, Q = cv.rand_sub()
         return dP, P, dQ, Q
 
-    def sim_lot(self, cv, cnt, mode):
-        """ep_mul_sim_lot with cnt points; contiguous arrays of ep_st / bn_st in exact-size blocks"""
+    @staticmethod
+    def alias_index(cnt, alias):
+        """index of the input element the result aliases, or None: alias in (None, 'first', 'mid', 'last')"""
+        if alias is None or cnt == 0:
+            return None, "sep"
+        j = {"first": 0, "mid": cnt // 2, "last": cnt - 1}[alias]
+        return j, ("r=p0" if j == 0 else ("r=plast" if j == cnt - 1 else "r=pmid"))
+
+    def same_but(self, before, after, j):
+        """array snapshots equal except element j (the aliased output)"""
+        if j is None:
+            return before == after
+        a, b = j * self.SZ, (j + 1) * self.SZ
+        return before[:a] == after[:a] and before[b:] == after[b:]
+
+    def sim_lot(self, cv, cnt, mode, alias=None):
+        """ep_mul_sim_lot with cnt points; contiguous arrays of ep_st / bn_st in exact-size blocks; the result is a
+        separate object or one of the input points (r is p[j])"""
         ctx, R, rng = self.ctx, self.R, self.rng
         n = cv.n
         ds = self.dscal
@@ -1350,8 +1379,9 @@ class W(object):
                 ks.append(rng.choice(ds) if rng.random() < 0.5 else self.random_scalar(cv))
         pc = cv.paircls(ks) if ks else "r|+in"
         ncl = "n0" if cnt == 0 else ("n1" if cnt == 1 else ("n<=10" if cnt <= 10 else "n>10"))
-        key = "ep_mul_sim_lot|%s|%s|%s" % (cv.kind, ncl, pc)
-        desc = {"curve": cv.name, "n": cnt, "d": [hx(d) for d, _ in pts][:8], "k": [hx(k) for k in ks][:8]}
+        aj, acl = self.alias_index(cnt, alias)
+        key = "ep_mul_sim_lot|%s|%s|%s|%s" % (cv.kind, ncl, pc, acl)
+        desc = {"curve": cv.name, "n": cnt, "d": [hx(d) for d, _ in pts][:8], "k": [hx(k) for k in ks][:8], "r_is_p": aj}
         if not self.begin(key, desc, nontrivial=cnt > 0):
             return
         rng = self.crng
@@ -1365,16 +1395,18 @@ class W(object):
                     raise RuntimeError("bn_make failed")
                 R.bn_put(karr + i * R.bn_sz, ks[i])
             sp = self.snap(parr, cnt)
-            self.scrub(self.c)
-            res = R.call("ep_mul_sim_lot", self.c, parr, karr, cnt)
+            out = self.c if aj is None else parr + aj * self.SZ
+            if aj is None:
+                self.scrub(self.c)
+            res = R.call("ep_mul_sim_lot", out, parr, karr, cnt)
             e = 0
             for (d, P), k in zip(pts, ks):
                 if P is not None:
                     e = (e + d * (k % n)) % n
             inr = all(cv.in_range(k) for k in ks)
-            self.mul_verdict(cv, "ep_mul_sim_lot", key, res, self.c, cv.mulG(e), inr, [], [])
+            self.mul_verdict(cv, "ep_mul_sim_lot", key, res, out, cv.mulG(e), inr, [], [])
             if not res.caught:
-                ctx.check(self.snap(parr, cnt) == sp, key + "|input-modified")
+                ctx.check(self.same_but(sp, self.snap(parr, cnt), aj), key + "|input-modified")
                 for i in range(cnt):
                     self.bn_unchanged(karr + i * R.bn_sz, ks[i])
         except MonitorViolation as e:
@@ -1384,7 +1416,7 @@ class W(object):
             R.free(parr)
             R.free(karr)
 
-    def sim_dig(self, cv, cnt):
+    def sim_dig(self, cv, cnt, alias=None):
         ctx, R, rng = self.ctx, self.R, self.rng
         n = cv.n
         pts, ks = [], []
@@ -1399,7 +1431,8 @@ class W(object):
             ks.append(rng.choice([0, 1, 2, 3, R.B - 1, R.B >> 1, rng.randrange(R.B), rng.randrange(R.B),
                                   rng.randrange(1 << 8)]))
         ncl = "n1" if cnt == 1 else "n"
-        key = "ep_mul_sim_dig|%s|%s|%s" % (cv.kind, ncl, "allzero" if not any(ks) else "k")
+        aj, acl = self.alias_index(cnt, alias)
+        key = "ep_mul_sim_dig|%s|%s|%s|%s" % (cv.kind, ncl, "allzero" if not any(ks) else "k", acl)
         if cnt == 0:
             key = "ep_mul_sim_dig|n0"
         desc = {"curve": cv.name, "n": cnt, "d": [hx(d) for d, _ in pts][:8], "k": [hx(k) for k in ks][:8]}
@@ -1412,15 +1445,17 @@ class W(object):
             for i in range(cnt):
                 self.put(cv, parr + i * self.SZ, pts[i][1], rng.choice([self.BASIC, self.native]))
             sp = self.snap(parr, cnt)
-            self.scrub(self.c)
-            res = R.call("ep_mul_sim_dig", self.c, parr, karr, cnt)
+            out = self.c if aj is None else parr + aj * self.SZ
+            if aj is None:
+                self.scrub(self.c)
+            res = R.call("ep_mul_sim_dig", out, parr, karr, cnt)
             e = 0
             for (d, P), k in zip(pts, ks):
                 if P is not None:
                     e = (e + d * k) % n
-            self.mul_verdict(cv, "ep_mul_sim_dig", key, res, self.c, cv.mulG(e), True, [], [])
+            self.mul_verdict(cv, "ep_mul_sim_dig", key, res, out, cv.mulG(e), True, [], [])
             if not res.caught:
-                ctx.check(self.snap(parr, cnt) == sp, key + "|input-modified")
+                ctx.check(self.same_but(sp, self.snap(parr, cnt), aj), key + "|input-modified")
                 ctx.check(R.get(karr, R.DB * cnt) == b"".join(k.to_bytes(R.DB, "little") for k in ks),
                           key + "|scalar-modified")
         except MonitorViolation as e:
@@ -1453,7 +1488,7 @@ class W(object):
         for k in core:
             for m in core:
                 idx += 1
-                if ctx.mine(idx):
+                if ctx.mine(idx) and (self.light == 1 or rng.random() < 0.2):
                     dP, P, dQ, Q = self.pick_pair(cv)
                     self.sim_group(cv, dP, P, k, dQ, Q, m, fns if dP == 1 else two)
         for k in ds:
@@ -1464,10 +1499,10 @@ class W(object):
                 if rng.random() < 0.5:
                     k, m = m, k
                 self.sim_group(cv, dP, P, k, dQ, Q, m, fns if dP == 1 else two)
-        for it in range(ctx.n(150, 4000)):
+        for it in range(self.n(150, 4000)):
             dP, P, dQ, Q = self.pick_pair(cv)
             self.sim_group(cv, dP, P, self.random_scalar(cv), dQ, Q, self.random_scalar(cv), fns if dP == 1 else two)
-        for it in range(ctx.n(30, 1000)):
+        for it in range(self.n(30, 1000)):
             dQ, Q = cv.rand_sub() if rng.random() < 0.9 else (0, None)
             self.sim_group(cv, 1, cv.G, self.random_scalar(cv), dQ, Q, self.random_scalar(cv), ["ep_mul_sim_gen"])
         if self.has("ep_mul_sim_lot"):
@@ -1475,15 +1510,27 @@ class W(object):
                 idx += 1
                 if ctx.mine(idx):
                     self.sim_lot(cv, cnt, "in" if cnt % 3 == 0 else ("short" if cnt % 3 == 1 else "hostile"))
-            for it in range(ctx.n(6, 300)):
-                self.sim_lot(cv, rng.choice([1, 2, 3, 5, 10, 11, 12, 16, 33]), rng.choice(["in", "short", "hostile"]))
+            # the result aliasing an input point, on both sides of the n = 10 / 11 switch to the bucket method
+            for cnt in (1, 2, 3, 10, 11, 12, 16, 20, 33):
+                for al in ("first", "mid", "last"):
+                    idx += 1
+                    if ctx.mine(idx):
+                        self.sim_lot(cv, cnt, rng.choice(["in", "in", "short", "hostile"]), alias=al)
+            for it in range(self.n(6, 300)):
+                self.sim_lot(cv, rng.choice([1, 2, 3, 5, 10, 11, 12, 16, 33]), rng.choice(["in", "short", "hostile"]),
+                             alias=rng.choice([None, None, "first", "mid", "last"]))
         if self.has("ep_mul_sim_dig"):
             for cnt in range(1, 41):
                 idx += 1
                 if ctx.mine(idx):
                     self.sim_dig(cv, cnt)
-            for it in range(ctx.n(10, 400)):
-                self.sim_dig(cv, rng.choice([1, 2, 3, 4, 8, 17]))
+            for cnt in (1, 2, 3, 10, 11, 20):
+                for al in ("first", "mid", "last"):
+                    idx += 1
+                    if ctx.mine(idx):
+                        self.sim_dig(cv, cnt, alias=al)
+            for it in range(self.n(10, 400)):
+                self.sim_dig(cv, rng.choice([1, 2, 3, 4, 8, 17]), alias=rng.choice([None, None, "first", "mid", "last"]))
 
 
 def run(ctx, part):
@@ -1500,6 +1547,9 @@ def run(ctx, part):
         elif part == "mul":
             w.part_mul(cv, first)
         elif part == "sim":
+            w.part_sim(cv, first)
+        elif part == "mulx":
+            w.part_mul(cv, first)
             w.part_sim(cv, first)
         first = False
     for k_, v_ in w.info.items():
